@@ -57,6 +57,8 @@ class IndexableArray(RaggedBase):
         if np.issubdtype(_np.asanyarray(rows).dtype, np.integer) and np.issubdtype(_np.asanyarray(cols).dtype, np.integer):
             return self._get_element(rows, cols)
         view = self._shape.view_rows(rows)
+        if isinstance(cols, Number) and len(view.lengths) == 0:
+            cols = 0  # no row is selected, so no cell is addressed: the column number plays no role (and need not fit the index dtype)
         view = view.col_slice(cols)
         if not (isinstance(rows, Number) or isinstance(cols, Number)):
             return view
